@@ -74,6 +74,33 @@ theorem local_guarded (s : St) (wr : Nat) (h : s.trkEnt.reacting = false ∨ s.t
     readLocal s wr = none := by
   rcases h with h | h <;> simp [readLocal, h]
 
+
+/-! ### whole-execution theorems (`Proofs/Registry.lean`) -/
+
+/-- **Local data moves only by the reactor's own commands on that entity**: in every step of every execution the
+    `EntityWorldLocal` data of `e` is unchanged unless the step applies `ewrInsertLocal` / `ewrCleanupData` on `e`, or `e`
+    dies in it. Runs of the reactor for other entities, other reactors, events and despawns of others do not touch it. -/
+theorem local_data_moves_only_by_reactor_commands {p : Prog} {hh : Hist} {s s' : St} (ht : tick p hh s = some s') (e : Nat) :
+    s'.ewLocal e = s.ewLocal e ∨ (s.alive e = true ∧ s'.alive e = false) ∨ ∃ c, nextCmd s = some c ∧ touchesLocal e c :=
+  local_stable ht e
+
+/-- **A run caused by an entity exposes exactly the data attached when the entity was added**: if the data was `v` at some
+    point, the entity stayed alive and no add / remove command for it was applied since, a run whose tracker names that entity
+    reads `(entity, v)`. -/
+theorem run_reads_attached_data {p : Prog} {hh : Hist} (wr src v : Nat) {s s' : St}
+    (h : QuietRun p hh (fun x => (∃ c, nextCmd x = some c ∧ touchesLocal src c) ∨ x.alive src = false) s s') (ha : s'.alive src = true)
+    (hv : alookup (s.ewLocal src) wr = some v)
+    (hr : s'.trkEnt.reacting = true) (hsys : s'.trkEnt.curSys = s'.ewrSys wr) (hsrc : s'.trkEnt.curSrc = src) :
+    readLocal s' wr = some (src, v) :=
+  local_of_source s' wr src v hr hsys hsrc (by rw [local_stable_run src h ha]; exact hv)
+
+/-- The world reactor's system is never duplicated or despawned by adding / removing triggers: the reactor's registrations
+    under a type-wide key move only by commands naming that key (C06), and adding creates neither entity nor arc
+    (`add_creates_no_entity`, `add_creates_no_arc`). -/
+theorem wr_registrations_stable {p : Prog} {hh : Hist} (tb : Tbl) (ty : Nat) {s s' : St}
+    (h : QuietRun p hh (fun x => ∃ c, nextCmd x = some c ∧ touchesTbl tb ty c) s s') : s'.tbl tb ty = s.tbl tb ty :=
+  typewide_stable_run tb ty h
+
 /-- Removing triggers: the revoke, then one data clean-up per distinct entity named by the bundle. -/
 theorem ewrRemove_cmds (s : St) (wr : Nat) (trigs : List Trig) :
     (enqueue s (.ewrRemove wr trigs)).2 =
